@@ -132,7 +132,14 @@ def load(label, repo=REPO):
     return facts
 
 
+def extract_many(labels, repo=REPO):
+    """extract several configurations concurrently (separate target directories per configuration)"""
+    from concurrent.futures import ThreadPoolExecutor
+    with ThreadPoolExecutor(max_workers=len(labels)) as ex:
+        return list(ex.map(lambda l: extract(l, repo), labels))
+
+
 if __name__ == "__main__":
     labels = sys.argv[1:] or ["A", "B", "C"]
-    for l in labels:
-        print(extract(l))
+    for p in extract_many(labels):
+        print(p)
